@@ -202,6 +202,14 @@ def build(recipe):
                 au = ResidueAuth(longer, au.number, au.icode, au.name)
             return (r.label, au)
         return _rebuild(base, relabel=ren), recipe.get("ann_model")
+    if v == "prefixchains":
+        # every chain gets a five-character name; the names agree in their first four characters ("AA-10", "AA-11",
+        # ... as copies of an assembly are named) and keep the order of the original names
+        from rnapolis.common import ResidueAuth
+        names = sorted({r.auth.chain for r in base.residues if r.auth is not None})
+        new = {ch: f"AA-1{k}" for k, ch in enumerate(names[:10])}
+        return _rebuild(base, relabel=lambda ri, r: (r.label, None if r.auth is None else ResidueAuth(
+            new.get(r.auth.chain, r.auth.chain), r.auth.number, r.auth.icode, r.auth.name))), recipe.get("ann_model")
     if v == "icode":
         # order-preserving renumbering with insertion codes: residue k+1 becomes k^A for some k
         from rnapolis.common import ResidueAuth
@@ -529,6 +537,7 @@ def recipes(tier):
             out.append({"file": f, "variant": "longchain", "param": 0, "seed": 1})
             out.append({"file": f, "variant": "zeronum", "param": 0, "seed": 1})
             out.append({"file": f, "variant": "noring", "param": 0.3, "seed": 1})
+            out.append({"file": f, "variant": "prefixchains", "param": 0, "seed": 1})
         out.append({"file": files[2], "variant": "twomodel", "param": 1})
         out.append({"file": files[2], "variant": "twomodel", "param": 2})
         out.append({"file": files[2], "variant": "twomodel0", "param": 0})
@@ -556,6 +565,7 @@ def recipes(tier):
             for k in range(2):
                 out.append({"file": f, "variant": "zeronum", "param": 0, "seed": k})
                 out.append({"file": f, "variant": "noring", "param": 0.3, "seed": k})
+            out.append({"file": f, "variant": "prefixchains", "param": 0, "seed": 0})
             for k in range(2):
                 out.append({"file": f, "variant": "shuffle", "seed": k})
             for p in (0.9, 0.93, 0.96):
